@@ -109,7 +109,13 @@ def run_case(case):
     net = None
     try:
         if harness == "a":
+            attempts = []
+
             def mk():
+                attempts.append(1)
+                if len(attempts) - 1 in (case.get("creator_fails") or ()):
+                    # a connection cannot be made just now (no descriptors left, the constructor of a client_class raises)
+                    raise MemoryError("creator failed (attempt %d)" % (len(attempts) - 1))
                 o = FalsyObj() if case.get("falsy") else Obj()
                 created.append(o)
                 return o
@@ -258,6 +264,9 @@ def run_case(case):
                             problems.append(("internal-error", "%s raised %r" % (op, e)))
                     except ConnectionResetError:
                         pass
+                    except MemoryError:
+                        if not case.get("creator_fails"):
+                            raise
                     except KeyboardInterrupt:
                         if case.get("interrupt_recv") is None:
                             raise
@@ -409,6 +418,13 @@ def bounded_cases(tier, seed):
     for ms in (1, 2):
         confs.append({"harness": "b", "threads": [["get"], ["get"]], "max_size": ms, "interrupt_recv": [0], "two_in_quick": True})
         confs.append({"harness": "b", "threads": [["set", "get"], ["get"]], "max_size": ms, "interrupt_recv": [1], "idle": 5, "tick": 3})
+    # the creator fails for one checkout - also one that has just found idle objects timed out (they are closed all the same)
+    for ms in (1, 2):
+        confs.append({"harness": "a", "threads": [["gr", "gr"], ["gr"]], "max_size": ms, "idle": 5, "tick": 3, "creator_fails": [1]})
+        if tier == "thorough":
+            confs.append({"harness": "a", "threads": [["gr", "gr", "gr"], ["gr", "gr"]], "max_size": ms, "idle": 5, "tick": 4, "creator_fails": [2]})
+    confs.append({"harness": "a", "threads": [["gr", "ctx"], ["gd", "gr"]], "max_size": 2, "idle": 5, "tick": 6, "creator_fails": [1, 3]})
+    confs.append({"harness": "a", "threads": [["gr"], ["gr"]], "max_size": 2, "idle": 0, "creator_fails": [0]})
     # TCP keepalive configured, and one of its socket options refused on an established connection
     for ms in (1, 2):
         confs.append({"harness": "b", "threads": [["get"], ["set"]], "max_size": ms, "keepalive": True, "fail_setsockopt": [ms], "two_in_quick": ms == 2})
